@@ -143,4 +143,26 @@ example : (crun demoCfg (answeredEvs.take 25)).sys.rob.delivered.map (·.rspTo) 
     (crun demoCfg (answeredEvs.take 24)).idOf[1]? = some (0, 1) ∧
     nameOf (crun demoCfg (answeredEvs.take 25)) 1 = some (0, 1) := by decide
 
+/-- **The way in is never stuck on the connection either**: in every composed run, a request at the
+    head of the compute unit's scalar port is moved into the ROB's Top port as soon as that has room
+    (and the unit is not faulted); the ROB numbers it with its next request number and `idOf` records
+    which request ID of the compute unit that number stands for. -/
+theorem xfer_is_enabled (c : Cfg) (evs : List CEv) (r : C14.Flush.Req) (rest : List C14.Flush.Req)
+    (hout : (crun c evs).cu.s.out = r :: rest) (hf : (crun c evs).cu.fault = false)
+    (hroom : (crun c evs).sys.rob.topIn.length < c.rob.topInCap) :
+    (crun c (evs ++ [.xfer])).cu.s.out = rest ∧
+    (crun c (evs ++ [.xfer])).idOf = (crun c evs).idOf ++ [r] ∧
+    (crun c (evs ++ [.xfer])).sys.rob.topIn =
+      (crun c evs).sys.rob.topIn ++ [(reqOf r).toReq (crun c evs).sys.rob.nextTop] := by
+  have hrun : crun c (evs ++ [.xfer]) = cstep c (crun c evs) .xfer := by
+    simp [crun, List.foldl_append]
+  rw [hrun]
+  simp only [cstep, hout, hf, Bool.false_eq_true, if_false, hroom, if_true]
+  refine ⟨?_, trivial, ?_⟩
+  · simp [C14.Flush.step, hf, C14.Flush.Chan.take, hout]
+  · simp [sysStep, C15.step, hroom]
+
+example : (crun demoCfg roundEvs).cu.s.out = [(0, 1)] ∧ (crun demoCfg (roundEvs ++ [.xfer])).idOf = [(0, 0), (0, 1)] ∧
+    (crun demoCfg (roundEvs ++ [.xfer])).sys.rob.topIn.map (·.id) = [1] := by decide
+
 end C15.Cu
